@@ -30,3 +30,96 @@ Example C01_nonvacuous :
   snd (step (fst (run d [OBegin [0%nat]; ODelete 0 [97]; OCommit 8])) (OQuery (SSnap 7) 0 QAll))
   = OutObjs [mkO (mkP [97] 1 [] [] [] []) 1].
 Proof. eexists; split; vm_compute; reflexivity. Qed.
+
+(* ---- memory level: the slices whose backing arrays the Go code shares between snapshots ----
+   (Base/Slice.v: heap of backing arrays, Go slice headers; Table/SliceProofs.v: lpmEntry.tail,
+   tableInitialization.pending, the root slice in Commit — current code, pre-fix code 9ab81d8^,
+   and the seeded variants S-C13-3, S-C19-1, S-C05-1) *)
+From SV Require Base.Slice Table.InvDefs Table.SliceProofs.
+Module C01_Slices.
+Import SV.Base.Slice SV.Table.InvDefs SV.Table.SliceProofs.
+Local Open Scope nat_scope.
+
+(* lpmEntry.upsert (after fix 9ab81d8) writes only into a fresh array: every entry value that
+   existed before the call (= what earlier snapshots hold) reads the same afterwards *)
+Theorem C01_lpm_entry_upsert_frame : forall (h : eheap) (e : mentry) (pk : bytes) (o : object) (e' : mentry),
+  me_wf h e' -> me_den (fst (upsert_new h e pk o)) e' = me_den h e'.
+Proof. exact upsert_new_frame. Qed.
+Print Assumptions C01_lpm_entry_upsert_frame.
+
+Theorem C01_lpm_entry_delete_frame : forall (h : eheap) (e : mentry) (pk : bytes) (e' : mentry),
+  me_wf h e' -> me_den (fst (delete_new h e pk)) e' = me_den h e'.
+Proof. exact delete_new_frame. Qed.
+Print Assumptions C01_lpm_entry_delete_frame.
+
+(* and the writer's own view is the pure e_upsert / e_delete of Table/Model.v *)
+Theorem C01_lpm_entry_ops_refine_model : forall (h : eheap) (e : mentry) (pk : bytes) (o : object),
+  me_wf h e -> esorted (me_den h e) ->
+  me_den (fst (upsert_new h e pk o)) (snd (upsert_new h e pk o)) = e_upsert pk o (me_den h e) /\
+  me_den (fst (delete_new h e pk)) (snd (delete_new h e pk)) = e_delete pk (me_den h e).
+Proof. exact lpm_entry_ops_refine. Qed.
+Print Assumptions C01_lpm_entry_ops_refine_model.
+
+(* defect D1 (fixed by 9ab81d8): the in-place upsert changes what another holder of the entry reads *)
+Theorem C01_upsert_inplace_refuted :
+  exists (h : eheap) (e : mentry) (k : bytes) (o : object) (e_other : mentry),
+    me_wf h e /\ me_wf h e_other /\ esorted (me_den h e) /\
+    forall extra, me_den h e_other <> me_den (fst (upsert_old extra h e k o)) e_other.
+Proof. exact upsert_old_alias_refuted. Qed.
+Print Assumptions C01_upsert_inplace_refuted.
+
+(* seeded S-C13-3: slices.Delete in lpmEntry.delete *)
+Theorem C01_delete_inplace_refuted :
+  exists (h : eheap) (e : mentry) (k : bytes) (e_other : mentry),
+    me_wf h e /\ me_wf h e_other /\ esorted (me_den h e) /\
+    me_den h e_other <> me_den (fst (delete_inplace h e k)) e_other /\
+    me_den (fst (delete_inplace h e k)) e_other = [wobj 10 1; wobj 30 1; wobj 40 1; ezero].
+Proof. exact delete_inplace_alias_refuted. Qed.
+Print Assumptions C01_delete_inplace_refuted.
+
+(* RegisterInitializer (Clone + append) and the mark-done closure (Clone + DeleteFunc): any
+   sequence of them leaves every pre-existing pending slice unchanged (commit or abort) *)
+Theorem C01_init_pending_frame : forall (ops : list iop) (h : sheap) (init : option Slice.slice) (s : Slice.slice),
+  init_wf h init -> sl_wf h s -> sl_den (fst (fold_left istep_new ops (h, init))) s = sl_den h s.
+Proof. exact init_pending_frame. Qed.
+Print Assumptions C01_init_pending_frame.
+
+(* seeded S-C19-1: committed [a b]; done_b (re-slice), Register(c) (append in place), abort: [a c] *)
+Theorem C01_init_pending_alias_refuted :
+  exists (h : sheap) (p : Slice.slice) (a b c : bytes),
+    sl_wf h p /\ sl_den h p = [a; b] /\
+    forall e1 e2 e3,
+      sl_den (fst (fold_left istep_seeded [IDone b e1; IReg c e2 e3] (h, Some p))) p = [a; c] /\ [a; c] <> [a; b].
+Proof. exact init_pending_alias_refuted. Qed.
+Print Assumptions C01_init_pending_alias_refuted.
+
+(* Commit: loop writing root[pos] = currentRoot[pos], THEN append: publishes the current entry of
+   every unlocked table, its own entry for every locked one, then the tables registered meanwhile,
+   and writes nothing outside the transaction's private clone *)
+Theorem C01_commit_root_append_frame : forall extra locked (h : rheap) (entries cur : Slice.slice),
+  sl_wf h entries -> sl_wf h cur -> s_arr cur <> s_arr entries -> s_len entries <= s_len cur ->
+  let r := commit_root_good extra locked h entries cur in
+  (forall pos, pos < s_len entries -> locked (nth pos (sl_den h entries) 0) = false ->
+     nth pos (sl_den (fst r) (snd r)) 0 = nth pos (sl_den h cur) 0) /\
+  (forall pos, pos < s_len entries -> locked (nth pos (sl_den h entries) 0) = true ->
+     nth pos (sl_den (fst r) (snd r)) 0 = nth pos (sl_den h entries) 0) /\
+  skipn (s_len entries) (sl_den (fst r) (snd r)) = skipn (s_len entries) (sl_den h cur) /\
+  (forall s, sl_wf h s -> s_arr s <> s_arr entries -> sl_den (fst r) s = sl_den h s).
+Proof. exact commit_root_append_ok. Qed.
+Print Assumptions C01_commit_root_append_frame.
+
+(* seeded S-C05-1: append before the loop + loop writing through txn.tableEntries: when the
+   append reallocates the stale entry of an unlocked table is published *)
+Theorem C01_commit_root_append_refuted :
+  exists locked (h : rheap) (entries cur : Slice.slice) pos,
+    sl_wf h entries /\ sl_wf h cur /\ s_arr cur <> s_arr entries /\ s_len entries <= s_len cur /\
+    pos < s_len entries /\ locked (nth pos (sl_den h entries) 0) = false /\
+    forall extra,
+      let r := commit_root_bad extra locked h entries cur in
+      nth pos (sl_den (fst r) (snd r)) 0 <> nth pos (sl_den h cur) 0 /\
+      sl_den (fst r) (snd r) = [10; 2; 4] /\
+      sl_den (fst (commit_root_good extra locked h entries cur)) (snd (commit_root_good extra locked h entries cur)) = [10; 3; 4].
+Proof. exact commit_root_bad_refuted. Qed.
+Print Assumptions C01_commit_root_append_refuted.
+
+End C01_Slices.
